@@ -12,6 +12,7 @@ let handle kind c =
     let status = next c in
     let iw = next_z c in let ip = next_z c in let ic = next_z c in let ipers = next_z c in
     let faults = next_int c in
+    let faults_new = next_int c in
     let nth = next_int c in
     let specs = List.init nth (fun _ -> let k = next c in let a = next_z c in (k, a)) in
     let threads = List.map (fun (k, a) ->
@@ -28,7 +29,7 @@ let handle kind c =
     let total = List.fold_left (fun acc (k, a) -> if k = "add" then Z.add acc a else acc) init_total specs in
     let may_sat = Z.leb mAXEXTRA total in
     let diverged = ref false in
-    let last_w = ref iw and last_p = ref ipers and last_cur = ref ic in
+    let last_w = ref iw and last_p = ref ipers and last_cur = ref ic and last_ptr = ref ip in
     for i = 1 to nsteps do
       let tid = next_int c in
       let w = next_z c in let p = next_z c in let cu = next_z c in let pers = next_z c in
@@ -49,17 +50,21 @@ let handle kind c =
       end;
       if not (instant_ok (z_of_int nth) !begun w pers) then
         prop "instant" (Printf.sprintf "step %d: word=%s persisted=%s begun=%s threads=%d" i (tok_of_z w) (tok_of_z pers) (tok_of_z !begun) nth);
-      last_w := w; last_p := pers; last_cur := cu
+      last_w := w; last_p := pers; last_cur := cu; last_ptr := p
     done;
     (match status with
      | "hang" -> prop "hang" "a call did not return within the step budget"
      | "panic" -> prop "panic" "a call panicked"
      | _ ->
+       if w_have !last_w && !last_ptr <> !last_cur then
+         prop "stale-pointer" (Printf.sprintf "all calls returned but the counter's pointer (mapping %s) is not the current mapping (%s): later increments land in a superseded file"
+                                 (tok_of_z !last_ptr) (tok_of_z !last_cur));
        if not (final_ok total may_sat (!last_cur <> Z0) !last_w !last_p) then
          prop "quiescent" (Printf.sprintf "word=%s persisted=%s expected-total=%s cur=%s"
                              (tok_of_z !last_w) (tok_of_z !last_p) (tok_of_z total) (tok_of_z !last_cur));
        if not !diverged && not (all_done (Stdlib.snd !st)) then
          diff "model-threads-not-done" ~model:"some thread not Done" ~impl:"all calls returned");
+ if faults_new > 0 then prop "entered-through-closed-mapping" (Printf.sprintf "%d accesses by a call that entered its reader/flush section AFTER the mapping was closed (scenario %s)" faults_new scen);
     if faults > 0 then prop "use-after-unmap" (Printf.sprintf "%d accesses through a closed mapping (scenario %s)" faults scen)
   | k -> diff "unknown-case-kind" ~model:k ~impl:"-"
 
